@@ -238,6 +238,34 @@ static void mt_fatal(const char *msg)
 	mon_viol(g_prop, "iv_fatal", key, "library called iv_fatal: %s", msg);
 }
 
+/* is a process-directed SIGCHLD waiting to be delivered? (used when a harness decides that a child is done and the library idle) */
+#include <fcntl.h>
+int __real_clock_gettime(clockid_t, struct timespec *);
+static int __attribute__((unused)) mt_sigchld_pending(void)
+{
+	char buf[2048], *p;
+	int fd = open("/proc/self/status", O_RDONLY), n;
+	unsigned long long shd = ~0ULL;
+	if (fd < 0)
+		return 1;
+	n = (int)__real_read(fd, buf, sizeof(buf) - 1);
+	__real_close(fd);
+	if (n <= 0)
+		return 1;
+	buf[n] = 0;
+	p = strstr(buf, "ShdPnd:");
+	if (p != NULL)
+		shd = strtoull(p + 7, NULL, 16);
+	return (shd >> (SIGCHLD - 1)) & 1;
+}
+
+static inline int64_t __attribute__((unused)) mt_real_ns(void)
+{
+	struct timespec ts;
+	__real_clock_gettime(CLOCK_MONOTONIC, &ts);
+	return (int64_t)ts.tv_sec * 1000000000LL + ts.tv_nsec;
+}
+
 static void mt_learn_method(void)
 {
 	iv_init();
